@@ -129,21 +129,28 @@ StepWord(st, w) ==
   ELSE IF lvl.tail.kind = "pos" THEN PushPos(st, w, FALSE)
   ELSE Kill(st, "unexpected")
 
+\* help and version are asked with the names the CURRENT level configures (default -h/--help, -V/--version);
+\* the same text is an ordinary unknown flag at a level that configures other names or no version
+Info(st, txt) ==
+  IF txt \in RangeOf(Cur(st).lvl.help_names)
+  THEN [st EXCEPT !.helpAt = IF @.set THEN @ ELSE [set |-> TRUE, path |-> st.path, vtag |-> ""], !.frozen = TRUE]
+  ELSE IF Cur(st).lvl.version /\ txt \in RangeOf(Cur(st).lvl.ver_names)
+  THEN [st EXCEPT !.verAt = IF @.set THEN @ ELSE [set |-> TRUE, path |-> st.path, vtag |-> Cur(st).lvl.vtag],
+                  !.frozen = TRUE]
+  ELSE Kill(st, "unknown")
+
+\* the letters of a cluster, one after another; the short names of the help and version flags are letters
+\* like any other (see ClusterItems)
 RECURSIVE FoldNames(_, _)
-FoldNames(st, ns) == IF ns = <<>> THEN st ELSE FoldNames(StepName(st, Head(ns)), Tail(ns))
+FoldNames(st, ns) ==
+  IF ns = <<>> THEN st
+  ELSE FoldNames(IF Head(ns) \in {"-h", "-V"} /\ Owner(Cur(st).lvl, Head(ns)) = {} THEN Info(st, Head(ns))
+                 ELSE StepName(st, Head(ns)), Tail(ns))
 
 \* e is processed with nothing pending
 Plain(st, e) ==
   CASE e.t = "dd"     -> [st EXCEPT !.posOnly = TRUE, !.frozen = TRUE]
-    \* help and version are asked with the names the CURRENT level configures (default -h/--help, -V/--version);
-    \* the same text is an ordinary unknown flag at a level that configures other names or no version
-    [] e.t \in {"help", "ver"} ->
-         IF e.txt \in RangeOf(Cur(st).lvl.help_names)
-         THEN [st EXCEPT !.helpAt = IF @.set THEN @ ELSE [set |-> TRUE, path |-> st.path, vtag |-> ""], !.frozen = TRUE]
-         ELSE IF Cur(st).lvl.version /\ e.txt \in RangeOf(Cur(st).lvl.ver_names)
-         THEN [st EXCEPT !.verAt = IF @.set THEN @ ELSE [set |-> TRUE, path |-> st.path, vtag |-> Cur(st).lvl.vtag],
-                         !.frozen = TRUE]
-         ELSE Kill(st, "unknown")
+    [] e.t \in {"help", "ver"} -> Info(st, e.txt)
     [] e.t = "unk"    -> Kill(st, "unknown")
     [] e.t = "name"   -> StepName(st, e.s)
     [] e.t = "eq" -> StepAttached(st, e.s, e.v)
@@ -330,6 +337,13 @@ ClusterItems(def, lvl) ==
                  ELSE fs[1][2] \o fs[2][2] \o fs[3][2] IN
   {[t |-> "cluster", s |-> "", v |-> "", ss |-> Names(fs), last |-> "", hasv |-> FALSE,
     txt |-> "-" \o Txt(fs)] : fs \in FS2 \cup FS3}
+  \* the tokeniser knows the short names of the ROOT's help and version flags as flags too - the version name
+  \* whether or not a version is configured: `-aV` is `-a -V`, never a word
+  \cup {[t |-> "cluster", s |-> "", v |-> "", ss |-> IF front THEN <<x[1]>> \o Names(fs) ELSE Names(fs) \o <<x[1]>>,
+         last |-> "", hasv |-> FALSE, txt |-> IF front THEN "-" \o x[2] \o Txt(fs) ELSE "-" \o Txt(fs) \o x[2]]
+           : fs \in FS1, front \in BOOLEAN,
+             x \in (IF "vershort" \in RangeOf(def.alpha.extras) /\ "-V" \in RangeOf(def.ver_names) THEN {<<"-V", "V">>} ELSE {})
+                \cup (IF "helpshort" \in RangeOf(def.alpha.extras) /\ "-h" \in RangeOf(def.help_names) THEN {<<"-h", "h">>} ELSE {})}
   \cup {[t |-> "cluster", s |-> "", v |-> w, ss |-> Names(fs), last |-> o[1], hasv |-> TRUE,
          txt |-> "-" \o Txt(fs) \o o[2] \o w] : fs \in FS1 \cup (IF def.alpha.clusters3 THEN FS2 ELSE {}), o \in A, w \in W}
   \cup {[t |-> "cluster", s |-> "", v |-> "", ss |-> Names(fs), last |-> o[1], hasv |-> FALSE,
@@ -397,7 +411,8 @@ Accounted(s) ==
           DOMAIN s.frames)
   + Len(s.path) + (IF s.posOnly THEN 1 ELSE 0)
 Held(s) == Accounted(s) + (IF s.pending # "" THEN 1 ELSE 0)
-Entries(e) == IF e.t = "cluster" THEN Len(e.ss) + (IF e.last = "" THEN 0 ELSE 1) ELSE 1
+\* (the help / version letters of a cluster are requests, not occurrences)
+Entries(e) == IF e.t = "cluster" THEN Len(SelectSeq(e.ss, LAMBDA n : n \notin {"-h", "-V"})) + (IF e.last = "" THEN 0 ELSE 1) ELSE 1
 ExactlyOnce == [][LET e == line'[Len(line')] IN
                     (st'.dead = "" /\ ~st'.ambig /\ e.t \notin {"help", "ver"}) =>
                        Held(st') = Held(st) + (IF st.posOnly THEN 1
